@@ -113,7 +113,11 @@ def apply_op(o, pool):
     if k == "multiply":
         return a.multiply(np.full(nf, o["x"]), ["frequency"]), None
     if k == "multiply_inplace":
-        a.multiply(np.full(nf, o["x"]), ["frequency"], inplace=True)
+        if o["i"] % 2:
+            a.multiply(np.full(nf, o["x"]), ["frequency"], inplace=True)
+        else:
+            # the branch without dimension labels: array of exactly the spectrum's shape
+            a.multiply(np.full(a.shape(), o["x"]), inplace=True)
         return None, o["a"] % len(pool)
     if k == "bandpass":
         return a.bandpass(float(f[0]), float(f[max(1, nf // 2)])), None
